@@ -246,9 +246,28 @@ def B3_assign_pipeline(repo, clause):
             ok = isinstance(l2.elt, ast.Call) and ast.unparse(l2.elt.func) == "%s.index" % uname and isinstance(l2.generators[0].iter, ast.Name) \
                 and l2.generators[0].iter.id == kname and isinstance(l2.elt.args[0], ast.Name) and l2.elt.args[0].id == l2.generators[0].target.id \
                 and not l2.generators[0].ifs
-        obs.append(Ob("B3", clause, fn, ty[0] if ty else fn.node, ok, "type id of a term = position of its key in the unique list" if ty else
+        # the same lookup through an index map {key: i for i, key in enumerate(unique)}: equivalent only if the map is built AFTER the last deletion from the unique list
+        stale_map = None
+        if not ok and len(ty) == 1 and isinstance(ty[0].value, ast.ListComp) and isinstance(ty[0].value.elt, ast.Subscript) and isinstance(ty[0].value.elt.value, ast.Name):
+            mname_ = ty[0].value.elt.value.id
+            mdef = [n for n in fn.own_nodes() if isinstance(n, ast.Assign) and any(isinstance(t_, ast.Name) and t_.id == mname_ for t_ in n.targets) and isinstance(n.value, ast.DictComp)]
+            if len(mdef) == 1:
+                dc_ = mdef[0].value
+                g_ = dc_.generators[0]
+                over_unique = isinstance(g_.iter, ast.Call) and call_name(g_.iter) == "enumerate" and g_.iter.args and isinstance(g_.iter.args[0], ast.Name) and g_.iter.args[0].id == uname
+                l2 = ty[0].value
+                over_keys = isinstance(l2.generators[0].iter, ast.Name) and l2.generators[0].iter.id == kname and not l2.generators[0].ifs
+                if over_unique and over_keys:
+                    dels_after = [d_ for d_ in fn.own_nodes() if isinstance(d_, ast.Delete) and any(isinstance(x, ast.Name) and x.id == uname for t_ in d_.targets for x in ast.walk(t_))
+                                  and fn.cfg.reaches(mdef[0], d_) and fn.cfg.reaches(d_, ty[0])]
+                    if dels_after:
+                        stale_map = mname_
+                    else:
+                        ok = True
+        obs.append(Ob("B3", clause, fn, ty[0] if ty else fn.node, ok, ("type id of a term = position of its key in the unique list" + (
+            "" if stale_map is None else " -- looked up in the index map `%s`, which is built BEFORE entries are deleted from the unique list: the surviving terms point at stale (wrong or out-of-range) rows" % stale_map)) if ty else
                       "%s never stores atoms.%s_types: the terms keep whatever type ids they had, while the coefficient table is rebuilt" % (fn.qualname, k),
-                      construct=None if ty else "atoms.%s_types = [...]" % k, slot="%s:type-ids" % k, positive=not ty))
+                      construct=None if ty else "atoms.%s_types = [...]" % k, slot="%s:type-ids" % k, positive=(not ty) or stale_map is not None))
         # 5. parameters computed for the unique keys in order and formatted in the same order
         par = [n for n in fn.own_nodes() if isinstance(n, ast.Assign) and isinstance(n.value, ast.ListComp)
                and any(call_name(c) == "%s_params" % k for c in ast.walk(n.value) if isinstance(c, ast.Call))]
